@@ -85,6 +85,30 @@ claim("C15", "table agreement registry x consumer interfaces x struct tags x con
       "Decides that every registered plugin type can be instantiated through Refresh without hitting an unchecked assertion, an un-settable field, a nil pointer left by a non-exhaustive type switch, an unguarded reflect setter or an out-of-range index; that every literal default converts; that errors on the configuration path are consumed; that storage keys are built from normalised pieces; that the async buffer size is validated before make(chan). Substitution and '!'-expression semantics are run-time data flow and are not decided.",
       NOTE_COMMON, "DESIGN.md §4 C15")
 
+# P13 (DESIGN.md section 10): what the partial evaluator adds per property: (technique suffix, level-text suffix)
+P13 = {
+ "C01": ("partial evaluation of sort-and-chain (all reference sets of size <= 4 up to order type), of every non-queueing logger's Append over reference sets x ranges x levels, of ParseLevelRange and of the 15 entry points over environment classes",
+         "Additionally decided by evaluation over the listed finite domains: the ranges sort-and-chain produces, which references receive an event of each level, entry-point gating."),
+ "C02": ("partial evaluation of the tag matcher (237 tag shapes x key subsets) and of Refresh/Destroy/registration/probe sequences (1282 sequences, both map orders) against a routing model",
+         "Additionally decided over those domains: literal > longest underscore-delimited wildcard prefix > root, independent of map order; validation errors; rebinding."),
+ "C03": ("partial evaluation of each file appender over a scripted clock and file system", "Additionally decided over the scripted steps: one write of the whole line per call, append-mode opens."),
+ "C05": ("partial evaluation of file appenders (descriptors open between calls and after Stop, incl. Stop after a failed rotation) and of Refresh/Destroy sequences (start/stop order)", "Additionally decided over those domains: every descriptor closed by Stop, at most two held, loggers stopped before appenders, everything started is stopped once."),
+ "C07": ("partial evaluation of JSONLayout.ToBytes on 441 events + a 60-event header sequence, output decoded with encoding/json in the checker", "Additionally decided over the listed event domain: each line is one JSON object that decodes to the logged data, members in the specified order."),
+ "C08": ("partial evaluation of TextLayout.ToBytes on the same events, tokens compared with the JSON tokens; header sequence over zones, instants, levels and tags in one evaluation state", "Additionally decided over the listed event domain: header shape for every zone/instant/level/tag incl. history, key=value tokens, truncation for widths -5..200."),
+ "C09": ("partial evaluation of AppendString/AppendKey of both encoders on ~10.9k strings (every byte at every offset, UTF-8 boundary classes, all planes)", "Additionally decided over that string domain by decoding the output."),
+ "C10": ("partial evaluation of the 15 entry points over environment classes (hook masks, caller modes, ranges, recycled events) and of level-range probes across Refresh/Destroy rebinding", "Additionally decided over those domains: hooks, clock, lazy generator run once iff the serving logger enables the level, also after the tag was rebound."),
+ "C11": ("partial evaluation of the entry points with runtime.Caller/Callers/CallersFrames modelled over the interpreter's call stack (site sequence A,B,A,B, skip values around the constants)", "Additionally decided over those classes: default and fast look-up report the caller's site and agree; nothing is recorded when disabled."),
+ "C12": ("partial evaluation of every non-queueing logger's Write over reference sets and of handle sequences", "Additionally decided over those domains: ungated, exactly-once, verbatim delivery; handle stability and forwarding."),
+ "C13": ("partial evaluation of the rolling appender over 30 scripted steps (boundaries, idle intervals, failed rotations, restart)", "Additionally decided for a single writer over the scripted steps: file name of the write's own interval, flags, rotate-before-write, the created file is published."),
+ "C14": ("partial evaluation of the cleanup closure a rotation launches, captured with its bindings, over 24 scripted directory populations", "Additionally decided over those populations: the removed set equals the statement's (own 14-digit files older than the cut-off by modification time, nothing else)."),
+ "C15": ("partial evaluation of toStorage+NewPlugin on every registered and seven synthetic plugin types (package reflect modelled over go/types) against a reference resolver, 1273 configurations, and of Refresh on 233 configurations; key normaliser on every short string", "Additionally decided over the generated configurations: value > default > error, ${} substitution, camel/kebab/snake/inline equivalence, element shapes, errors instead of panics, every logger x appender type instantiable."),
+ "C16": ("partial evaluation of Refresh/Destroy/RegisterTag/GetLogger/log/write sequences (all of length <= 3 over ten operations, plus long scripted ones)", "Additionally decided over those sequences: no panic in any state, built-in logger when unbound, second Refresh rejected without effect, Destroy idempotent, registration refused exactly while live."),
+ "C17": ("partial evaluation of expr.Parse through the generated lexer/parser and the interpreted ANTLR runtime (panic/recover modelled) on generated well-formed expressions x 4 spacings vs a reference flattener, malformed inputs, and a history phase", "Additionally decided over the generated inputs: exact flattening, (nil,error) for malformed input, history independence."),
+ "C18": ("partial evaluation of RegisterTag and the tag helpers on ~25.9k names against the regular language of the statement", "Additionally decided by bounded-exhaustive evaluation over the boundary alphabet and all segment compositions."),
+ "C19": ("partial evaluation of the rolling appender across one to three consecutive boundaries at which the next file cannot be created", "Additionally decided for a single writer: the line goes to the file kept open, no nil file is written, the next boundary retries, retention still asynchronous."),
+ "C20": ("partial evaluation of each synchronous appender: the line is handed to the sink before the call returns", "Additionally decided over the scripted steps."),
+}
+
 PENDING_REASON = "check not built yet in this commit (static rule planned in DESIGN.md section 4); no claim is made until the rule exists and has been validated both ways"
 
 def main():
@@ -94,6 +118,10 @@ def main():
         pid = p["id"]
         if pid in CLAIMED:
             tech, text, note, ref = CLAIMED[pid]
+            if pid in P13:
+                tech = tech + "; P13 " + P13[pid][0] + " (an evaluation that agrees decides the clause and overrides the shape rule; one that leaves the modelled fragment is inconclusive and overrides nothing)"
+                text = text + " " + P13[pid][1] + " Inputs outside the enumerated classes are not decided by the evaluation."
+                ref = ref + " and §10"
             checks.append({
                 "property_id": pid,
                 "quick_cmd": f"./run {pid} quick",
@@ -121,7 +149,7 @@ def main():
             "name": "vcheck",
             "path": "/verif/checker",
             "serves_properties": sorted(CLAIMED),
-            "kind_free_text": "repository-specific static analyser (Go, x/tools go/packages + go/ssa): dominance/guard analysis, path-sensitive typestate simulation, alias closure, provenance trees, finite-domain value sets, table agreement",
+            "kind_free_text": "repository-specific static analyser (Go, x/tools go/packages + go/ssa): dominance/guard analysis, path-sensitive typestate simulation, alias closure, provenance trees, finite-domain value sets, table agreement, and an abstract interpreter for go/ssa (library and OS models, reflect over go/types) that evaluates the analysed functions over explicit finite quotient domains against references written from the property statements; nothing of /repo is built or run",
         }],
         "checks": checks,
         "not_applicable": na,
